@@ -504,6 +504,35 @@ def run_case(case):
                     if gt(max(abs(getattr(p, f) - o[i] / a) for i, f in enumerate(('x', 'y', 'z', 'vx', 'vy', 'vz'))), 4 * EPS * max(abs(q) for q in o) / abs(a)):
                         add('linear:div', 'sim/scalar')
                         break
+            # reflected and in-place forms (a * sim, sim *= a, sim /= a, sim += sim2, sim -= sim2) are the same maps; the binary forms above
+            # must have left their operands untouched
+            def coords(s_):
+                return [(p.x, p.y, p.z, p.vx, p.vy, p.vz) for p in s_.particles]
+            if coords(s1) != base or coords(s2) != other:
+                add('linear:binary-operator-changed-an-operand', 'after sim+sim, sim-sim, sim*a, sim/a an operand differs from before')
+            t = a * s1
+            if coords(t) != [tuple(o[i] * a for i in range(6)) for o in base]:
+                add('linear:rmul', 'scalar*sim')
+            t = s1.copy()
+            t *= a
+            if coords(t) != [tuple(o[i] * a for i in range(6)) for o in base]:
+                add('linear:imul', 'sim *= scalar')
+            if a != 0:
+                t = s1.copy()
+                t /= a
+                if any(gt(abs(g_ - o_ * (1.0 / a)), 4 * EPS * abs(o_ / a)) for gp, op in zip(coords(t), base) for g_, o_ in zip(gp, op)):
+                    add('linear:idiv', 'sim /= scalar')
+            t = s1.copy()
+            t += s2
+            if coords(t) != [tuple(o[i] + q[i] for i in range(6)) for o, q in zip(base, other)] or coords(s2) != other:
+                add('linear:iadd', 'sim += sim2 is not coordinate-wise addition (or changed sim2)')
+            t = s1.copy()
+            t -= s2
+            if coords(t) != [tuple(o[i] - q[i] for i in range(6)) for o, q in zip(base, other)] or coords(s2) != other:
+                add('linear:isub', 'sim -= sim2 is not coordinate-wise subtraction (or changed sim2)')
+            if [p.m for p in t.particles] != [p.m for p in s1.particles]:
+                add('linear:masses-changed', 'sim -= sim2 changed the masses')
+            counters['linear_maps_inplace'] = counters.get('linear_maps_inplace', 0) + 1
             s3 = rebound.Simulation()
             s3.add(m=1.0)
             if N != 1:
